@@ -184,6 +184,9 @@ func linOf(v ssa.Value) Lin {
 
 var inlineDepth int
 
+// affineInlineExported: also expand exported one-line accessors (set by R-INPUT / R-PEEKRUNE for their own run).
+var affineInlineExported bool
+
 // inlineCallLin: the affine form of a call to a small module function whose single result is an affine
 // expression of its parameters and of fields reached from them (z.Len(), z.remaining(pos), …), expressed in
 // the caller's terms. Functions that store, branch or call anything but len/cap are not inlined.
@@ -193,6 +196,11 @@ func inlineCallLin(c *ssa.Call, depth int) (Lin, bool) {
 		fmt.Fprintf(os.Stderr, "INLINE? %s blocks=%d depth=%d\n", f.Name(), len(f.Blocks), inlineDepth)
 	}
 	if f == nil || c.Call.IsInvoke() || len(f.Blocks) != 1 || fnPkg(f) == nil || !core.InModule(fnPkg(f)) || inlineDepth > 3 {
+		return Lin{}, false
+	}
+	// exported accessors (Offset(), Pos(), Len()) are the stable vocabulary other rules speak in; they are expanded
+	// only while the cursor types themselves are being checked
+	if f.Object() != nil && f.Object().Exported() && !affineInlineExported {
 		return Lin{}, false
 	}
 	ret, ok := lastInstr(f.Blocks[0]).(*ssa.Return)
